@@ -539,7 +539,11 @@ impl Watch {
             }
             Some(i) => {
                 if !accepted {
-                    self.flag(&["C06", "C16"], format!("matching-ack-rejected/{}", kind_name(pkt.kind)), format!("{what}: the acknowledgement matches an exchange in flight but was not accepted: {}", evs_short(evs)));
+                    // an acknowledgement that would have completed the exchange also owed the
+                    // release of its id (C08)
+                    let completes = pkt.kind == PUBACK || pkt.kind == PUBCOMP || (pkt.kind == PUBREC && pkt.rc_or0() >= 0x80);
+                    let props: &[&'static str] = if completes { &["C06", "C16", "C08"] } else { &["C06", "C16"] };
+                    self.flag(props, format!("matching-ack-rejected/{}", kind_name(pkt.kind)), format!("{what}: the acknowledgement matches an exchange in flight but was not accepted: {}", evs_short(evs)));
                     return false;
                 }
                 self.stats.round_trips += 1;
